@@ -929,6 +929,20 @@ class UnitLib(Lib):
                 return r
             if dotted in ("numpy.sqrt", "math.sqrt"):
                 return FLOAT
+            if dotted == "numpy.clip" and len(args) == 3 and \
+                    isinstance(args[0].idx, Idx) and args[0].idx.axis:
+                # clamping a position along one axis with the length of the
+                # other axis
+                one = args[0].idx
+                for other in args[1:]:
+                    dim = other.kind & {"nrows", "ncols"} if other.kind \
+                        else None
+                    if dim and ("nrows" in dim) != (one.axis == "row"):
+                        return args[0].with_(idx=Idx(
+                            one.axis, one.origin, one.frame,
+                            "%s index clamped with the length of the %s "
+                            "axis" % (one.axis, "row" if "nrows" in dim
+                                      else "column")))
             if dotted in UFUNC_SAME and args:
                 a = args[0]
                 if a.cls == "colarray":
